@@ -547,7 +547,7 @@ def _full_history_job(base, descs):
         obs.append(ops.apply(F, d, E))
         for n in watch:
             if snapshot(E[n], nm) != before[n] and tampered is None:
-                tampered = (i, n, jsonable(E[n]))
+                tampered = (i, n, json.loads(snapshot(E[n], nm)))   # (a parsed schema is cyclic through its table)
     return obs, tampered
 
 
